@@ -18,6 +18,8 @@ import (
 	mtypes "github.com/chain4energy/c4e-chain/x/cfeminter/types"
 	sdk "github.com/cosmos/cosmos-sdk/types"
 	authtypes "github.com/cosmos/cosmos-sdk/x/auth/types"
+	vestingtypes "github.com/cosmos/cosmos-sdk/x/auth/vesting/types"
+	banktypes "github.com/cosmos/cosmos-sdk/x/bank/types"
 )
 
 const denomB = "ubb"
@@ -38,6 +40,14 @@ var (
 
 func aU(label string) dacc { return dacc{dtypes.BaseAccount, harness.AddrS(label)} }
 
+// aBlocked: a BASE_ACCOUNT whose address is a blocked module account - every payout to it fails.
+func aBlocked() dacc {
+	return dacc{dtypes.BaseAccount, harness.ModAddr(dtypes.GovernanceBoosterCollector).String()}
+}
+
+// aLocked: a BASE_ACCOUNT source whose coins are locked in a vesting account - every sweep fails.
+func aLocked() dacc { return aU("LOCKED") }
+
 func (a dacc) short() string {
 	switch a.Type {
 	case dtypes.Main:
@@ -46,6 +56,9 @@ func (a dacc) short() string {
 		return "M:" + a.ID
 	case dtypes.InternalAccount:
 		return "I:" + a.ID
+	}
+	if a == aBlocked() {
+		return "B:BLOCKED"
 	}
 	for _, l := range []string{"U1", "U2", "U3", "LOCKED"} {
 		if harness.AddrS(l) == a.ID {
@@ -129,7 +142,28 @@ func (c dcfg) Model() *ref.DistModel {
 	}
 	m := ref.NewDistModel(subs)
 	m.Alias[aMmain.ref().Key()] = ref.AccMain
+	m.PayFails[aBlocked().ref().Key()] = true
+	m.SweepFails[aLocked().ref().Key()] = true
 	return m
+}
+
+func (c dcfg) hasFailing() bool {
+	for _, s := range c {
+		for _, a := range s.Sources {
+			if a == aLocked() {
+				return true
+			}
+		}
+		if s.Primary == aBlocked() {
+			return true
+		}
+		for _, sh := range s.Shares {
+			if sh.Dest == aBlocked() {
+				return true
+			}
+		}
+	}
+	return false
 }
 
 // accounts lists every bank-backed account the configuration mentions (not MAIN, not internal).
@@ -280,6 +314,16 @@ func c03Oracle(w *harness.World, ctx sdk.Context, k dkeeper.Keeper, report distV
 	if !coinsEq(ints, mainBal) {
 		report("books-vs-balance", fmt.Sprintf("recorded remains sum to %s but the main account holds %s", sum, mainBal))
 	}
+	// no coin may vanish: the supply still equals the sum of all balances
+	sumBal := sdk.NewCoins()
+	for _, c := range balancesMap(w, ctx) {
+		sumBal = sumBal.Add(c...)
+	}
+	for d, sup := range supplyMap(w, ctx) {
+		if !sumBal.AmountOf(d).Equal(sup) {
+			report("coins-vanished", fmt.Sprintf("supply of %s is %s but all balances add up to %s", d, sup, sumBal.AmountOf(d)))
+		}
+	}
 	if msg, broken := dkeeper.NonNegativeCoinStateInvariant(k)(ctx); broken {
 		report("registered-invariant-nonnegative", msg)
 	}
@@ -402,10 +446,21 @@ func distAlpha(thorough bool) distAlphabet {
 	a := distAlphabet{}
 	a.sources = [][]dacc{{aMAIN}, {aMfee}, {u1}, {aI1}, {aIF}, {aMfee, aMAIN}, {aMAIN, aMfee}, {aMfee, u1}, {aI1, aMAIN}, {aMAIN, aI1}, {aIF, aMfee}, {aMgeb, aI1}}
 	a.primary = []dacc{aVRC, u2, aI1, aIF, aMAIN, aMmain, aMfee}
+	if thorough {
+		a.sources = append(a.sources, []dacc{aLocked(), aMAIN}, []dacc{aMAIN, aLocked()})
+		a.primary = append(a.primary, aBlocked())
+	}
 	a.shares = [][]dshare{nil}
 	oneDest := []dacc{aVRC, u2, aI1, aIF, aMAIN, aMfee, aMmain}
+	if thorough {
+		oneDest = append(oneDest, aBlocked())
+	}
 	for _, d := range oneDest {
-		a.shares = append(a.shares, []dshare{{d, "0.5"}})
+		// 0.3, not 0.5: with one half the share and the remainder coincide and hide mix-ups of the two
+		a.shares = append(a.shares, []dshare{{d, "0.3"}})
+		if thorough {
+			a.shares = append(a.shares, []dshare{{d, "0.5"}})
+		}
 	}
 	a.burns = []string{"0", "0.5"}
 	if thorough {
@@ -419,9 +474,23 @@ func distAlpha(thorough bool) distAlphabet {
 			}
 		}
 	} else {
-		a.shares = append(a.shares, []dshare{{aVRC, "0.333333333333333333"}, {aI1, "0.05"}})
+		a.shares = append(a.shares, []dshare{{aVRC, "0.333333333333333333"}, {aI1, "0.05"}},
+			[]dshare{{aMAIN, "0.333333333333333333"}, {u2, "0.05"}}, []dshare{{u2, "0.333333333333333333"}, {aMAIN, "0.05"}})
 	}
 	return a
+}
+
+// distFailingAlpha: a small alphabet around naturally failing transfers (a source whose coins are
+// locked in a vesting account, a destination that is a blocked module address), enumerated completely
+// in both tiers.
+func distFailingAlpha() distAlphabet {
+	u2 := aU("U2")
+	return distAlphabet{
+		sources: [][]dacc{{aMAIN}, {aLocked(), aMAIN}, {aMAIN, aLocked()}, {aMfee, aMAIN}, {aLocked()}},
+		primary: []dacc{aVRC, u2, aBlocked(), aI1},
+		shares:  [][]dshare{nil, {{u2, "0.5"}}, {{aBlocked(), "0.5"}}, {{aBlocked(), "0.333333333333333333"}, {aVRC, "0.05"}}},
+		burns:   []string{"0", "0.5"},
+	}
 }
 
 func (a distAlphabet) subs() []dsub {
@@ -464,6 +533,16 @@ func distChains() []dcfg {
 	return out
 }
 
+// distGenesis: two users and a vesting account whose whole balance is locked for the whole run.
+func distGenesis() harness.Genesis {
+	t0 := harness.T0.Unix()
+	g := harness.Genesis{Balances: map[string]sdk.Coins{"U1": coins(0), "U2": coins(0)}}
+	locked := vestingtypes.NewContinuousVestingAccountRaw(vestingtypes.NewBaseVestingAccount(authtypes.NewBaseAccountWithAddress(harness.Addr("LOCKED")), coins(50), t0+10000000), t0+1000000)
+	g.Accounts = append(g.Accounts, locked)
+	g.ExtraBal = append(g.ExtraBal, banktypes.Balance{Address: harness.AddrS("LOCKED"), Coins: coins(50)})
+	return g
+}
+
 type distStats struct {
 	candidates, accepted, blocks, withRemainder, multiSource int64
 }
@@ -471,7 +550,28 @@ type distStats struct {
 // enumDistConfigs enumerates the complete 2-sub-distributor product (plus all 1-sub configurations
 // and the chain templates), filtered by the real validation.
 func enumDistConfigs(thorough bool, workers int, st *distStats) []dcfg {
-	alpha := distAlpha(thorough)
+	out := enumDistAlphabet(distAlpha(thorough), workers, st)
+	seen := map[string]bool{}
+	for _, c := range out {
+		seen[c.String()] = true
+	}
+	for _, c := range enumDistAlphabet(distFailingAlpha(), workers, st) {
+		if !seen[c.String()] {
+			out = append(out, c)
+		}
+	}
+	for _, c := range distChains() {
+		atomic.AddInt64(&st.candidates, 1)
+		if c.Params().Validate() == nil {
+			out = append(out, c)
+		}
+	}
+	sort.Slice(out, func(i, j int) bool { return out[i].String() < out[j].String() })
+	st.accepted = int64(len(out))
+	return out
+}
+
+func enumDistAlphabet(alpha distAlphabet, workers int, st *distStats) []dcfg {
 	subs := alpha.subs()
 	var out []dcfg
 	var mu sync.Mutex
@@ -511,14 +611,6 @@ func enumDistConfigs(thorough bool, workers int, st *distStats) []dcfg {
 		out = append(out, local...)
 		mu.Unlock()
 	})
-	for _, c := range distChains() {
-		atomic.AddInt64(&st.candidates, 1)
-		if c.Params().Validate() == nil {
-			out = append(out, c)
-		}
-	}
-	sort.Slice(out, func(i, j int) bool { return out[i].String() < out[j].String() })
-	st.accepted = int64(len(out))
 	return out
 }
 
@@ -547,7 +639,7 @@ func runDist(rc *RunCtx, prop string) {
 		pats = []inflowPat{patSeven, patMulti, patNone, patOne}
 		depth = 3
 	}
-	genesis := harness.BuildGenesis(harness.Genesis{Balances: map[string]sdk.Coins{"U1": coins(0), "U2": coins(0)}})
+	genesis := harness.BuildGenesis(distGenesis())
 	worlds := make([]*harness.World, rc.Workers)
 	var mu sync.Mutex
 	var samples []interface{}
@@ -606,7 +698,7 @@ func runDist(rc *RunCtx, prop string) {
 						c18DistEvents(c.EventManager().ABCIEvents(), mm, report)
 					default:
 						mm.Block()
-						c04Oracle(w, c, k, cfg, mm, false, report)
+						c04Oracle(w, c, k, cfg, mm, cfg.hasFailing(), report)
 					}
 					for _, s := range k.GetAllStates(c) {
 						if !s.Remains.IsZero() {
@@ -619,7 +711,13 @@ func runDist(rc *RunCtx, prop string) {
 				hist = hist[:len(hist)-1]
 			}
 		}
-		rec(base, cfg.Model(), 0)
+		m0 := cfg.Model()
+		for _, a := range cfg.bankAccounts() {
+			if b := w.App.BankKeeper.GetAllBalances(base, bankAddr(a)); !b.IsZero() {
+				m0.Bal[modelBankKey(a)] = amtOfCoins(b)
+			}
+		}
+		rec(base, m0, 0)
 		if ci%(len(cfgs)/6+1) == 0 {
 			mu.Lock()
 			samples = append(samples, map[string]interface{}{"config": cfg.String(), "histories": "all sequences of " + fmt.Sprint(depth) + " blocks over inflow patterns"})
